@@ -177,6 +177,10 @@ func zzC02_tcp_decode() {
 	if symParam("plaincodes", 1) == 1 {
 		symAssume(r.code < 225 || r.code > 229)
 	}
+	if symParam("signalcodes", 0) == 1 {
+		// only the signalling codes 7.01-7.05, each with its own option registry
+		symAssume(r.code >= 225 && r.code <= 229)
+	}
 	hl := symConcrete(r.hdrLen)
 	var out message.Message
 	out.Options = make(message.Options, 0, n+1)
@@ -243,3 +247,6 @@ func zzC02_tcp_selftest() {
 	_, err := DefaultCoder.DecodeHeader(data, &h)
 	symAssert(err != nil, "selftest: must fail (some 3-byte headers are complete)")
 }
+
+// the same decision restricted to the signalling codes (7.01-7.05), whose option numbers mean something else
+func zzC02_tcp_decode_signals() { zzC02_tcp_decode() }
